@@ -70,6 +70,16 @@ func subProfile(r *rand.Rand) (gen.Profile, gen.DataCfg) {
 	return p, d
 }
 
+func emitsWanted(script []fake.SubEvent) int {
+	n := 0
+	for _, e := range script {
+		if e.Kind == "data" || e.Kind == "errors-payload" || e.Kind == "errors+data" {
+			n++
+		}
+	}
+	return n
+}
+
 var rootFieldRe = regexp.MustCompile(`^(subscription[^{]*\{\s*)((?:\w+:\s*)?\w+)(\(([^)]*)\))?`)
 var markerArgRe = regexp.MustCompile(`marker:\s*("[^"]*"|\$\w+|null)\s*,?\s*`)
 
@@ -297,12 +307,29 @@ func (p c17) Exec(c *run.Ctx, idx int, raw json.RawMessage) []run.Result {
 				}
 			}
 		}
-		_, done := expectEmits()
+		emitted, done := expectEmits()
 		if nf != lastFrames {
 			lastFrames = nf
 			stableSince = time.Now()
 		}
-		if done && time.Since(stableSince) > 150*time.Millisecond {
+		// logical quiescence: every emitted event (and every upstream error frame) has a frame at a client;
+		// a short grace lets duplicates or strays arrive too.  Only when frames are missing does the wall clock
+		// come in: nothing new for 2.5 s although all upstream scripts are done (a loaded machine delivers late, not never)
+		expectFrames := emitted
+		for _, u := range r.Upstreams {
+			for _, uc := range u.Snapshot() {
+				for _, e := range scripts[uc.Marker] {
+					if e.Kind == "error-frame" && atomic.LoadInt32(&uc.Done) == 1 && int(atomic.LoadInt32(&uc.Emitted)) >= emitsWanted(scripts[uc.Marker]) {
+						expectFrames++
+					}
+				}
+			}
+		}
+		if done && nf >= expectFrames && time.Since(stableSince) > 40*time.Millisecond {
+			break
+		}
+		if done && time.Since(stableSince) > 2500*time.Millisecond {
+			res.Counters["settled_with_frames_missing"] = 1
 			break
 		}
 		if time.Now().After(deadline) {
